@@ -391,6 +391,54 @@ impl Attack for Ipa {
         use ark_poly_commit::{LabeledPolynomial, PolynomialCommitment};
         let ck = &sess.keys.ck;
         let n = ck.comm_key.len();
+        // A degenerate key first: if two of the committer key's generators coincide (G_i = G_j), or the
+        // hiding generator s equals some G_i, then a different polynomial (with adjusted randomness) has
+        // the commitment of p, and the honest prover run on it proves its value. On a key whose
+        // generators are pairwise distinct neither exists and the padded-key forgery below is built.
+        {
+            use std::collections::HashMap;
+            let mut seen: HashMap<Vec<u8>, usize> = HashMap::new();
+            let mut dup = None;
+            for (j, g) in ck.comm_key.iter().enumerate() {
+                if let Some(i) = seen.get(&crate::util::ser(g)) {
+                    dup = Some((*i, j));
+                    break;
+                }
+                seen.insert(crate::util::ser(g), j);
+            }
+            let s_at = seen.get(&crate::util::ser(&ck.s)).copied();
+            let i0 = order[0];
+            let d = nz::<JFr>(sel ^ 0xd0b1e);
+            let mut co = sess.polys[i0].polynomial().coeffs().to_vec();
+            co.resize(n, JFr::zero());
+            let mut st = sess.states[i0].clone();
+            let how = if let Some((i, j)) = dup {
+                co[i] += d;
+                co[j] -= d;
+                Some(format!("generators {i} and {j} of the committer key coincide: prover run on p + d (X^{i} - X^{j})"))
+            } else if let (Some(i), true) = (s_at, sess.meta[i0].hiding.is_some()) {
+                co[i] += d;
+                st.rand -= d;
+                Some(format!("the hiding generator equals generator {i}: prover run on p + d X^{i} with randomness - d"))
+            } else {
+                None
+            };
+            if let Some(how) = how {
+                let mut lqs = Vec::new();
+                for (pos, i) in order.iter().enumerate() {
+                    let q = if pos == 0 { JUniPoly::from_coefficients_vec(co.clone()) } else { sess.polys[*i].polynomial().clone() };
+                    lqs.push(LabeledPolynomial::new(sess.polys[*i].label().clone(), q, sess.meta[*i].bound, sess.meta[*i].hiding));
+                }
+                let cs: Vec<_> = order.iter().map(|i| &sess.comms[*i]).collect();
+                let ss: Vec<_> = order.iter().enumerate().map(|(pos, i)| if pos == 0 { &st } else { &sess.states[*i] }).collect();
+                let mut sp = sess.sponge();
+                let mut r = rng(sel ^ 0xf9);
+                let out = crate::util::guard(|| IpaPC::open(ck, lqs.iter(), cs, point, &mut sp, ss, Some(&mut r)));
+                let crate::util::Out::Ok(proof) = out else { return None };
+                let claimed = lqs.iter().map(|q| q.polynomial().evaluate(point)).collect();
+                return Some(Forged { point: None, guard_log2: None, proof, claimed, desc: how });
+            }
+        }
         let k = 1 + ((sel >> 44) % 2) as usize;
         let big = n << k;
         let mut key = ck.comm_key.clone();
